@@ -15,6 +15,7 @@ from decimal import Decimal, getcontext
 from .common import fhex, ints
 
 PROP_FILE = "Properties/C02.v"
+GEN = ["GenC02"]
 RUN_FILES = ["Model/C02_run.v"]
 
 R_EARTH = 6370997.0
@@ -269,11 +270,16 @@ def gen_case(r, ctx, big=False):
             d = ds[0] if r.random() < 0.7 else r.choice(ds)
             radius = r.choice([d, math.nextafter(d, INF), math.nextafter(d, 0.0)]) if d > 0 else 0.0
             rk = "exact_neighbour_distance"
-    case = {"src": src, "tgt": tgt, "radius": radius, "data": data, "fill": fill}
+    eps = 0
+    if r.random() < 0.15:
+        eps = r.choice([0.125, 0.5, 2.0, 0.1])
+    case = {"src": src, "tgt": tgt, "radius": radius, "data": data, "fill": fill, "epsilon": eps,
+            "check_segments": r.random() < 0.25, "check_k2": r.random() < 0.1}
     tags = {"region": region, "src": src["kind"] + ("/" + "+".join(stag) if stag else ""),
             "tgt": tgt["kind"] + ("/" + "+".join(ttag) if ttag else ""), "radius": rk,
             "data": "%s/k%d/%s/%s" % (data["dtype"], data["k"], mkind, data["layout"]),
-            "fill": "None" if fill is None else ("nan" if fill != fill else "number"), "sentinel": sentinel}
+            "fill": "None" if fill is None else ("nan" if fill != fill else "number"), "sentinel": sentinel,
+            "epsilon": "0" if not eps else "positive"}
     return case, tags
 
 
@@ -281,7 +287,7 @@ def fixed_cases():
     """Deterministic cases: the inputs of the two known findings / Coq refutation witnesses, and plain sanity cases."""
     def sw(lons, lats, shape=None):
         return {"kind": "swath", "shape": shape or [len(lons)], "lons": lons, "lats": lats, "dtype": "float64"}
-    base = {"region": "equator0", "radius": "typical", "sentinel": False}
+    base = {"region": "equator0", "radius": "typical", "sentinel": False, "epsilon": "0"}
     out = []
     out.append(({"src": sw([0.0, 1.0, 2.0], [0.0, 0.0, 0.0]), "tgt": sw([0.1], [0.0]), "radius": 50000,
                  "data": {"dtype": "uint8", "k": 0, "values": [[255], [7], [9]], "mask": None, "layout": "flat"}, "fill": None},
@@ -321,7 +327,7 @@ def gen_lattice(r, ctx):
     for n in (1, 2, 3):
         for pts in itertools.product(line, repeat=n):
             for rr in (0, 1, 2, 3):
-                out.append({"pts": [[p, 0, 0] for p in pts], "queries": qs, "r": float(rr), "r2": rr * rr})
+                out.append({"pts": [[p, 0, 0] for p in pts], "queries": qs, "r": float(rr), "r2": rr * rr, "exhaustive": True})
     return out
 
 
@@ -339,6 +345,8 @@ def oracle(case, obs):
     k, kk = d["k"], max(d["k"], 1)
     fill = case["fill"]
     r = float(case["radius"])
+    eps = float(case.get("epsilon", 0) or 0)
+    near_key = "C02.nearest" if not eps else "C02.epsilon"     # eps > 0 is judged against the (1+eps)-approximate contract
     sl, sa, tl, ta = obs["src_lons"], obs["src_lats"], obs["tgt_lons"], obs["tgt_lats"]
     single = obs["coord_dtype"] == "float32" or obs["tgt_coord_dtype"] == "float32" or obs.get("xyz_dtype") == "float32"
     rel, ab = (1e-5, 16.0) if single else (1e-9, 1e-6)
@@ -350,6 +358,10 @@ def oracle(case, obs):
         fails.append((key, "output shape %s, expected target shape + channels %s" % (res["shape"], want_shape)))
     if res["dtype"] != d["dtype"]:
         fails.append(("C02.dtype", "output dtype %s, input dtype %s" % (res["dtype"], d["dtype"])))
+    if obs.get("segments_differ"):
+        fails.append(("C02.segments", "get_neighbour_info differs from the segments=1 result for segments in %s" % obs["segments_differ"]))
+    if obs.get("k2") not in (None, "n/a", "ValueError"):
+        fails.append(("C02.nn_k2", "get_sample_from_neighbour_info('nn') on a 2-neighbour index array: %s (ValueError expected)" % obs["k2"]))
     if not obs.get("direct_same", True):
         fails.append(("C02.two_step", "resample_nearest differs from get_sample_from_neighbour_info(get_neighbour_info)"))
     if len(res["vals"]) != M * kk:
@@ -387,8 +399,8 @@ def oracle(case, obs):
             tx = xyz(tl[t], ta[t])
             ds = [(dist(tx, sx[i]), i) for i in sv]
             dmin = min(ds)[0]
-            cands = [i for (dd, i) in ds if dd <= dmin * (1 + rel) + ab and dd <= r * (1 + rel) + ab]
-            allowed_fill = dmin >= r * (1 - rel) - ab
+            cands = [i for (dd, i) in ds if dd <= dmin * (1 + eps) * (1 + rel) + ab and dd <= r * (1 + rel) + ab]
+            allowed_fill = dmin * (1 + eps) >= r * (1 - rel) - ab
         ok = allowed_fill and is_fill
         sentinel_only = False
         if not ok:
@@ -409,7 +421,7 @@ def oracle(case, obs):
                 fails.append(("C02.invalid_contributes", "target %d (lon %r lat %r, %d valid sources) must be fill, got %r mask %r"
                               % (t, tl[t], ta[t], len(sv), vals, msk)))
             else:
-                fails.append(("C02.nearest", "target %d (lon %r lat %r): got %r mask %r; nearest valid source at %.9g m, radius %r, "
+                fails.append((near_key, "target %d (lon %r lat %r): got %r mask %r; nearest valid source at %.9g m, radius %r, "
                               "admissible sources %s%s" % (t, tl[t], ta[t], vals, msk, dmin, case["radius"], cands[:5],
                                                            " or fill" if allowed_fill else "")))
     return fails
@@ -474,6 +486,11 @@ def coq_case(case, obs):
     k, kk = d["k"], max(d["k"], 1)
     single = obs.get("xyz_dtype") == "float32"
     a, b, kabs = TOL_F32 if single else TOL_F64
+    eps = case.get("epsilon", 0) or 0
+    if eps:
+        from fractions import Fraction
+        fe = Fraction(float(eps))                        # exact value of the binary64 epsilon handed to the tree
+        a, b = a * (fe.denominator + fe.numerator) ** 2, b * fe.denominator ** 2
     geo = "(mk_geo %s %s %s %s %s %s %s %s %s %s (%d, %d, (%d)))" % (
         fl(obs["src_lons"]), fl(obs["src_lats"]), fl(obs["tgt_lons"]), fl(obs["tgt_lats"]), bl(obs["vii"]), bl(obs["voi"]),
         zl(obs["idx"]), xl(obs["src_xyz"]), xl(obs["tgt_xyz"]), fhex(float(case["radius"])), a, b, kabs)
@@ -541,13 +558,19 @@ def run(ctx):
     r = ctx.rng
     t_start = time.time()
     sys.stderr.write("  [C02] proofs+gate+assumptions done at %.1fs\n" % (t_start - ctx.t0))
-    ctx.rule = ("PRNG source/target pairs (swath 1-D/2-D, GridDefinition, AreaDefinition laea/stere/merc/longlat/eqc/geos) around the poles, "
-                "the antimeridian, equator/0-meridian, Europe and random centres, spreads 0.01-30 degrees, with duplicated points, "
-                "out-of-range / NaN / inf / 1e30 coordinates on both sides, sparse sources, targets coincident with sources; radii zero, tiny, "
-                "typical, huge, and exactly (+-1 ulp) a neighbour distance; data float64/float32/int32/uint8/int16/int64, 1-D / (n,k) / "
-                "geo-shaped, plain or masked, fill number / NaN / None.  A case is non-trivial when at least two valid sources compete and at "
-                "least one target receives a source value; distinct = distinct canonical inputs.  Plus integer-lattice kd-tree queries "
-                "(ties, distance == bound) compared with the brute-force reference.")
+    ctx.rule = ("Generation: 5 fixed cases (inputs of the two known findings / Coq refutation witnesses, an invalid source sitting on a target, "
+                "a NaN first source pixel in front of two kd-tree leaves) + PRNG source/target pairs drawn from ctx.rng: geometry kind per side "
+                "(swath 1-D/2-D, GridDefinition from points or a regular mesh, AreaDefinition laea/stere/merc/longlat/eqc/geos) around a centre "
+                "(poles, antimeridian, equator/0-meridian, Europe, random) with spread 0.01-30 degrees; per-point features: exact +-180/+-90/0 "
+                "coordinates, out-of-range / NaN / inf / 1e30 coordinates on either side, duplicated points, float32 coordinates, sparse sources, "
+                "targets coincident with sources, NaN first source pixel; radius zero / tiny / typical / integer / huge / exactly (+-1 ulp) a "
+                "neighbour distance; data float64/float32/int32/uint8/int16/int64, 1-D / (n,k) / geo-shaped, plain, masked or masked with no bit "
+                "set, values equal to the dtype maximum; fill number / NaN / None; epsilon 0 or positive (judged against the (1+eps) contract); "
+                "a quarter of the cases also query with segments None/2/3/rows+3, a tenth feed a 2-neighbour index array to 'nn' sampling.  "
+                "Plus kd-tree queries on integer lattices: PRNG 3-D point sets (ties, distance == bound) and, exhaustively, every sequence of "
+                "1..3 points on the 1-D lattice {-2..2} x every query in {-3..3} x bounds 0..3.  "
+                "Non-trivial: at least two valid sources compete and at least one target receives a source value (lattice: at least two "
+                "points).  distinct = number of distinct canonical inputs (full geometry, radius, data, fill) among the non-trivial ones.")
     ncases = ctx.n(700, 5000)
     cases, tagl = [], []
     for c, tg in fixed_cases():
@@ -569,7 +592,7 @@ def run(ctx):
     t_or = time.time()
     texts = {"F": [], "Z": []}
     for ci, (case, tg, obs) in enumerate(zip(cases, tagl, obs_all["cases"])):
-        for kname in ("region", "radius", "fill"):
+        for kname in ("region", "radius", "fill", "epsilon"):
             ctx.count("%s=%s" % (kname, tg[kname]))
         ctx.count("src=" + tg["src"].split("/")[0])
         ctx.count("tgt=" + tg["tgt"].split("/")[0])
@@ -593,7 +616,7 @@ def run(ctx):
         if sum(obs["voi"]) < len(obs["voi"]):
             ctx.count("has_invalid_target")
         ctx.case(repr((case["src"], case["tgt"], case["radius"], case["data"], case["fill"])), nontrivial=(nvs >= 2 and got_value >= 1),
-                 sample={"nn": {"src": tg["src"], "tgt": tg["tgt"], "n_src": len(obs["vii"]), "n_valid_src": nvs, "n_tgt": len(obs["voi"]),
+                 sample={"nn_src_" + tg["src"].split("/")[0]: {"region": tg["region"], "src": tg["src"], "tgt": tg["tgt"], "epsilon": case.get("epsilon", 0), "n_src": len(obs["vii"]), "n_valid_src": nvs, "n_tgt": len(obs["voi"]),
                                 "radius": case["radius"], "data": tg["data"], "fill": repr(case["fill"]),
                                 "targets_with_value": got_value, "out_shape": obs["res"]["shape"]}})
         if obs.get("tree_data_same") is False:
@@ -623,11 +646,37 @@ def run(ctx):
             ctype = "float" if ty == "F" else "Z"
             named.append((name, HDR + "Definition cases : list (geo_case * @data_case %s) := [\n%s].\nEval vm_compute in (bad_codes case_code_%s cases).\n"
                           % (ctype, ";\n".join(it[1] for it in sh), ty)))
+    # Cartesian.transform_lonlats: model products with the implementation's own cos/sin as oracle table (binary64 only)
+    X = []
+    for ci, (case, obs) in enumerate(zip(cases, obs_all["cases"])):
+        if "error" in obs or "trig" not in obs:
+            continue
+        if case.get("check_segments"):
+            ctx.count("checked=segments(None,2,3,rows+3)")
+        if obs.get("k2") not in (None, "n/a"):
+            ctx.count("checked=nn_rejects_2_neighbours")
+        sv = [i for i, v in enumerate(obs["vii"]) if v]
+        tv = [i for i, v in enumerate(obs["voi"]) if v]
+        if len(obs["tgt_xyz"]) != len(tv) or len(obs["src_xyz"]) != len(sv):
+            continue
+        lls = [(obs["src_lons"][i], obs["src_lats"][i]) for i in sv] + [(obs["tgt_lons"][i], obs["tgt_lats"][i]) for i in tv]
+        if not lls:
+            continue
+        ctx.count("checked=transform_lonlats_model")
+        X.append((ci, "(%s, %s, %s)" % ("[" + ";".join("(%s,(%s,%s))" % (fhex(a), fhex(b), fhex(c)) for a, b, c in obs["trig"]) + "]",
+                                       "[" + ";".join("(%s,%s)" % (fhex(a), fhex(b)) for a, b in lls) + "]",
+                                       xl(obs["src_xyz"] + obs["tgt_xyz"]))))
+    XCH = max(1, (len(X) + 7) // 8) if not ctx.thorough else 80
+    for j in range(0, len(X), XCH):
+        name = "c02_xyz_%03d" % (j // XCH)
+        index[name] = [it[0] for it in X[j:j + XCH]]
+        named.append((name, HDR + "Definition cases : list xyz_case := [\n%s].\nEval vm_compute in (bad_codes xyz_code cases).\n"
+                      % ";\n".join(it[1] for it in X[j:j + XCH])))
     # lattice
     L = []
     lat_ok = []
     for lc, lo in zip(lattice, obs_all["lattice"]):
-        ctx.count("lattice")
+        ctx.count("lattice=exhaustive_1d" if lc.get("exhaustive") else "lattice=random_3d")
         ctx.case(("lat", repr(lc)), nontrivial=len(lc["pts"]) >= 2, sample={"lattice": {"points": len(lc["pts"]), "queries": len(lc["queries"]), "bound": lc["r"]}})
         if "error" in lo:
             ctx.add_failure("C02.kdtree." + lo["error"], "KDTree query raised on integer lattice: %s" % lo.get("msg"), {"oracle": "lattice", "case": lc})
@@ -655,7 +704,8 @@ def run(ctx):
     sys.stderr.write("  [C02] Coq evaluation of %d shards: %.1fs\n" % (len(named), time.time() - t_coq))
     for name, _ in named:
         out, ok = res[name]
-        what = "lattice(kd-tree = brute force, strict bound, lower index on ties)" if "_lat_" in name else "nearest"
+        what = "lattice(kd-tree = brute force, strict bound)" if "_lat_" in name else \
+            ("transform_lonlats" if "_xyz_" in name else "nearest")
         if not ok:
             ctx.broken.append(("correspondence:" + what, "model evaluation failed in %s: %s" % (name, out[-300:])))
             continue
@@ -664,7 +714,10 @@ def run(ctx):
         if pairs:
             pos, code = pairs[0]
             ci = index[name][pos]
-            if "_lat_" in name:
+            if "_xyz_" in name:
+                detail = "Cartesian.transform_lonlats differs from the model R*cos(lat*d)*cos(lon*d), R*cos(lat*d)*sin(lon*d), R*sin(lat*d) " \
+                         "(implementation's own cos/sin) on %d cases, e.g. case %d (src %s)" % (len(pairs), ci, tagl[ci]["src"])
+            elif "_lat_" in name:
                 detail = "kd-tree answer differs from the brute-force reference on %d lattice cases, e.g. %s -> %s" % (
                     len(pairs), {k2: lattice[ci][k2] for k2 in ("pts", "queries", "r")}, obs_all["lattice"][ci])
             else:
